@@ -80,13 +80,13 @@ type AKAAttr struct {
 }
 
 type EAP struct {
-	Code   uint8  `json:"code"`
-	ID     uint8  `json:"id"`
-	Method uint8  `json:"m"` // 0 = no type data; 1,2,3; 50 AKA'; 254 expanded
-	Data   []byte `json:"d,omitempty"`
-	VID    uint32 `json:"vid,omitempty"`
-	VType  uint32 `json:"vt,omitempty"`
-	Sub    uint8  `json:"sub,omitempty"`
+	Code   uint8     `json:"code"`
+	ID     uint8     `json:"id"`
+	Method uint8     `json:"m"` // 0 = no type data; 1,2,3; 50 AKA'; 254 expanded
+	Data   []byte    `json:"d,omitempty"`
+	VID    uint32    `json:"vid,omitempty"`
+	VType  uint32    `json:"vt,omitempty"`
+	Sub    uint8     `json:"sub,omitempty"`
 	AKA    []AKAAttr `json:"aka,omitempty"` // in the order they were set / appear on the wire
 }
 
